@@ -288,6 +288,12 @@ func shapeTx(r *vh.Rng, t *service.TxRecord, combo int) {
 			t.Fields.Put("f", genValue(r, 0))
 		}
 	}
+	if t.Fields != nil && t.Fields.Size() > 0 && t.Fields.Size() < 250 && r.Chance(20) {
+		t.Fields.Put(fmt.Sprintf("nil%d", r.Intn(3)), nil) // written as an empty TextValue
+		if r.Chance(30) {
+			t.Fields.Put("k1", nil)
+		}
+	}
 	if combo&8 != 0 {
 		t.Error = nz(64)
 	} else {
@@ -369,6 +375,9 @@ func generate(c *ctx, r *vh.Rng) {
 		}
 		c.checkStream(items)
 	}
+	// 3b. encodings of older agents, raw streams behind unregistered type codes
+	genLegacy(c, r)
+	genRawStreams(c, r)
 	// 4. histories: hidden shared state / aliasing between encodings and between decodings
 	genHistories(c, r)
 	// 5. observations outside the property's quantifier (registered types only): recorded, not judged
@@ -471,6 +480,9 @@ func runReplay(c *ctx, path string) {
 		switch rc.Op {
 		case "history":
 			replayHistory(c, rc)
+		case "legacy":
+			s := specOf("TxRecord")
+			c.checkLegacy(fromRec(s, rc.Items[0].Rec).(*service.TxRecord), rc.Ver, rc.MtidFlag, rc.CallerFlag, vh.UnHex(rc.Rest))
 		case "single":
 			c.checkSingle(items[0].s, items[0].o, vh.UnHex(rc.Rest))
 		case "stream":
